@@ -7,7 +7,7 @@ from fractions import Fraction
 from . import refinterp as I
 from . import refnum as R
 from . import refparse as P
-from .common import REPO, WORK, Stats, Violation, hx, pmap, shim, finish, collect
+from .common import strip_log_lines, REPO, WORK, Stats, Violation, hx, pmap, shim, finish, collect
 
 A20 = ['형', '형.', '형..', '항.', '항...', '하앙...', '핫....', '흣...', '흐읏.', '흡...', '흐읍...', '흑', '흑.', '흑..',
        '흑....', '형.♥', '항...♥', '형..?♥', '항...♥!', '형.♡']
@@ -300,10 +300,7 @@ def programs_task(alphabet, prefix, rest, inputs, binary):
 
 
 def strip_banner(out):
-    i = out.find(b'==> running code\n')
-    if i < 0:
-        return None
-    return out[i + len(b'==> running code\n'):]
+    return strip_log_lines(out)
 
 
 def run_binary_case(sh, st, path, text, prog, inp, klass='run0'):
